@@ -96,6 +96,7 @@ class C25(Check):
             "threads": st.sampled_from([0, 1, 2]),
             "fork": st.booleans(),
             "outdir": st.booleans(),
+            "same_spelling": st.sampled_from([False, False, True]),
         })
 
     def _known_listed(self):
@@ -121,6 +122,8 @@ class C25(Check):
         for i, p in enumerate(provs):
             if p["used"] or p["kind"] == "obj":
                 main.append(f"  call p{i}@PLT")
+        if case.get("same_spelling"):
+            main += ["  call pdupa@PLT", "  call pdupb@PLT"]
         main += ["  ret", ""]
         tools.asm("\n".join(main), "u.o", cwd=w)
         reg("u.o", "object")
@@ -218,6 +221,17 @@ class C25(Check):
             tools.write(os.path.join(w, "args.rsp"), "\n".join(rsp_args) + "\n")
             reg("args.rsp", "response-file")
             args.append("@args.rsp")
+        if case.get("same_spelling"):
+            # Two different files requested under one spelling: `dupname.o` on the command line and `INPUT(dupname.o)`
+            # in a script that lives in sub/ (script inputs are looked up next to the script first). Both are read.
+            tools.asm(".globl pdupa\n.text\npdupa:\n  ret\n", "dupname.o", cwd=w)
+            tools.asm(".globl pdupb\n.text\npdupb:\n  nop\n  ret\n", "sub/dupname.o", cwd=w)
+            tools.write(os.path.join(w, "sub", "sd.ld"), "INPUT(dupname.o)\n")
+            reg("dupname.o", "object")
+            reg("sub/dupname.o", "object")
+            reg("sub/sd.ld", "linker-script")
+            cmd_items.append(["dupname.o"])
+            cmd_items.append(["sub/sd.ld"])
         for a in cmd_items:
             args += a
         if shared_out:
@@ -337,6 +351,8 @@ class C25(Check):
             info["classes"].append(f"via:{p['via']}")
         if any(p["twice"] for p in provs):
             info["classes"].append("named-twice")
+        if case.get("same_spelling"):
+            info["classes"].append("same-spelling-two-files")
         if shared_member_cases:
             info["classes"].append("same-path-loaded-twice(thin member shared)")
         n_listed_twice_alias = len(prereqs) - len(listed)
